@@ -766,8 +766,8 @@ class Run(RunBase):
             if not hasattr(self, "_clusters"):
                 ce = cluster.makeclusters(crys, 1.01 * self.wd.cut, 3)
                 jn = self.wd.jumpnetwork
-                vce = cluster.makeVacancyClusters(crys, CHEM, ce)
-                ts = cluster.makeTSclusters(crys, CHEM, jn, ce)
+                vce = cluster.makeVacancyClusters(crys, self.wd.chem, ce)
+                ts = cluster.makeTSclusters(crys, self.wd.chem, jn, ce)
                 self._clusters = sorted((cl for grp in (ce, vce, ts) for s in grp for cl in s), key=str)
             cl = self._clusters[rnd.randrange(len(self._clusters))]
             if what == "yaml:clustersite":
